@@ -131,7 +131,7 @@ func golubKahanSVDstep(B, U, V Matrix, p int, inSitu *InSitu, epsilon float64) {
     givensRotation.ApplyBidiagLeft(B, c, s, k, k+1, t1, t2)
     z.SetFloat64(0.0)
     if U != nil {
-      givensRotation.ApplyLeft(U, c, s, p+k, p+k+1, t1, t2)
+      givensRotation.ApplyRight(U, c, s, p+k, p+k+1, t1, t2)
     }
     if k < n-2 {
       y.Set(B.At(k,k+1))
@@ -157,7 +157,7 @@ func zeroRow(B, U, V Matrix, k int, inSitu *InSitu) {
     givensRotation.Run(y, z, c, s)
     givensRotation.ApplyBidiagLeft(B, c, s, i, k, t1, t2)
     if U != nil {
-      givensRotation.ApplyLeft(U, c, s, i, k, t1, t2)
+      givensRotation.ApplyRight(U, c, s, i, k, t1, t2)
     }
     z.SetFloat64(0.0)
   }
@@ -248,9 +248,6 @@ func golubKahanSVD(inSitu *InSitu, epsilon float64) (Matrix, Matrix, Matrix, err
         }
       }
     }
-  }
-  if U != nil {
-    U = U.T()
   }
   return H, U, V, nil
 }
